@@ -10,6 +10,7 @@ import (
 
 	"github.com/ipni/go-libipni/find/model"
 	"github.com/ipni/go-libipni/pcache"
+	"github.com/libp2p/go-libp2p/core/peer"
 
 	"verifharness/internal/ids"
 )
@@ -75,6 +76,16 @@ type Driver struct {
 	servers      []*httptest.Server
 }
 
+// strangerSource reports one provider that belongs to no behaviour.
+type strangerSource struct{}
+
+func (strangerSource) Fetch(context.Context, peer.ID) (*model.ProviderInfo, error) { return nil, nil }
+func (strangerSource) FetchAll(context.Context) ([]*model.ProviderInfo, error) {
+	id, _ := peer.Decode("12D3KooWQSMKybsYFnNyCGzFUJPgXLPxbGmuZp5xDrhEYyGkWfQ6")
+	return []*model.ProviderInfo{{AddrInfo: peer.AddrInfo{ID: id}, LastAdvertisementTime: "2031-01-01T00:00:00Z"}}, nil
+}
+func (strangerSource) String() string { return "stranger" }
+
 func NewDriver(cfg Config) (*Driver, error) {
 	d := &Driver{cfg: cfg, content: map[string]map[string]int{}, up: map[string]bool{}}
 	d.sim = &sim{arrive: make(chan *call), fetchAll: make([]int64, len(cfg.Srcs)), fetch: make([]int64, len(cfg.Srcs))}
@@ -99,6 +110,11 @@ func NewDriver(cfg Config) (*Driver, error) {
 		pcache.WithTTL(time.Duration(cfg.TTLUnits)*cfg.Unit))
 	if err != nil {
 		return nil, err
+	}
+	// the list of sources is the caller's: what the caller does with it afterwards (here: every slot overwritten with a source
+	// that reports a provider nobody knows) is not the cache's business
+	for i := range srcs {
+		srcs[i] = strangerSource{}
 	}
 	d.pc = pc
 	init := make([]int, len(cfg.Provs))
